@@ -136,6 +136,41 @@ def deep_chain(ctx, tmp):
             ctx.fail("the last step of the %d-step model is %r, expected %r" % (n, got and got[3], want), desc)
 
 
+def directed_models(ctx, tmp):
+    """small models with hand-computed results, run in every order of their commands: one field with values outside [-1, 1] consumed by a conversion whose
+    parameters make it the identity inside the range (thresholds 1 / -1, unit weights, a normalisation onto the field's own range) and by other commands"""
+    import itertools
+    with open(os.path.join(tmp, "dm.csv"), "w") as f:
+        f.write("a,b\n-2.5,1\n0.5,0\n3,2\n1,4\n")
+    a = [-2.5, 0.5, 3.0, 1.0]
+    models = [
+        (['A = EEMSRead(InFileName = "dm.csv", InFieldName = a)', "F = CvtToFuzzy(InFieldName = A, TrueThreshold = 1, FalseThreshold = -1)", "S = Sum(InFieldNames = [A, A])",
+          "N = Normalize(InFieldName = A, StartVal = -2.5, EndVal = 3)", "M = Maximum(InFieldNames = [A])"],
+         {"F": [-1.0, 0.5, 1.0, 1.0], "S": [2 * x for x in a], "N": a, "M": a, "A": a}),
+        (['A = EEMSRead(InFileName = "dm.csv", InFieldName = a)', "W = WeightedSum(InFieldNames = [A], Weights = [1])", "F = CvtToFuzzy(InFieldName = A, TrueThreshold = 1.0, FalseThreshold = -1.0)",
+          "G = FuzzyOr(InFieldNames = [F])", "D = AMinusB(A = A, B = W)"],
+         {"W": a, "F": [-1.0, 0.5, 1.0, 1.0], "G": [-1.0, 0.5, 1.0, 1.0], "D": [0.0] * 4, "A": a}),
+    ]
+    for lines, want in models:
+        for perm in itertools.permutations(lines):
+            src = "\n".join(perm) + "\n"
+            out = run_real(src, tmp)
+            ctx.case("directed " + src, sample=None)
+            ctx.count("directed_model_orders")
+            bad = None
+            if out["status"] != "ok":
+                bad = "fails: %s" % out["status"]
+            else:
+                for n, w in want.items():
+                    got = out["results"].get(n)
+                    if got is None or got[3] is None or any(g is None or abs(g - x) > 1e-9 for g, x in zip(got[3], w)):
+                        bad = "%s = %r, expected %r" % (n, got and got[3], w)
+                        break
+            if bad:
+                ctx.fail("a model whose results are known by hand, in one of the orders of its commands: %s" % bad, {"source": src})
+                break
+
+
 class Recording(object):
     def __init__(self):
         self.calls = []
@@ -286,6 +321,11 @@ def run(ctx):
                 if isinstance(aval, (int, float)) and not isinstance(aval, bool) and isinstance(got, (int, float)) and float(got) != float(progrun.raw_of(aval)):
                     ctx.fail("argument %s = %r of command %s reaches the command as %r" % (aname, aval, rname, got), desc)
                     break
+        # every data command hands on a masked array (the type all consumers are written for), whatever its inputs look like
+        for cname, rname, params, ins, (st, out) in rec.calls:
+            if st == "ok" and cname in eems.COMMANDS and isinstance(out, numpy.ndarray) and not isinstance(out, numpy.ma.MaskedArray):
+                ctx.fail("command %s (%s) of the model returned a plain ndarray, not a masked array: its consumers lose the missing-cell bookkeeping" % (rname, cname), desc)
+                break
         # a command's result, read after the run, is still what its body returned (no later consumer overwrote it)
         for cname, rname, params, ins, (st, out) in rec.calls:
             if st == "ok" and isinstance(out, numpy.ndarray) and rname in ref["results"]:
@@ -340,6 +380,7 @@ def run(ctx):
             if d:
                 ctx.fail("results change when other commands also consume intermediate results: %s" % d, {"source": sc.source, "with_consumers": Scenario(extra, wd=tmp, libs=LIBS).source})
     deep_chain(ctx, tmp)
+    directed_models(ctx, tmp)
     answers = model.ask(lines)
     # independent reference definitions (exact arithmetic, written without looking at the model): they decide, on the implementation, whether a
     # command's result inside a running program equals the mathematical evaluation of its inputs
